@@ -22,6 +22,10 @@ use crate::utils::TimeExt;
 #[path = "pruner_verif_hooks.rs"]
 pub mod verif_hooks;
 
+#[cfg(eigerco_lumina_verif)]
+#[path = "pruner_verif_sim_hooks.rs"]
+pub mod verif_sim_hooks;
+
 const MAX_PRUNABLE_BATCH_SIZE: u64 = 512;
 
 type Result<T, E = PrunerError> = std::result::Result<T, E>;
